@@ -3,6 +3,7 @@ import Nstd.Sync.LemmasSem
 import Nstd.Sync.LemmasSignal
 import Nstd.Sync.LemmasMonitor
 import Nstd.Sync.LemmasThr
+import Nstd.Sync.LemmasSleep
 import Nstd.Sync.LemmasRun
 import Nstd.Sync.LemmasScenario
 import Nstd.Sync.LiveSem
@@ -734,6 +735,17 @@ example : ∃ s, Thr.Reach (fun k => k + 100) 0 s ∧ s.pc 0 = .join 1 ∧ s.sta
 
 example : ∃ s s' : Thr.St, s.pc 0 = .create 1 none ∧ Thr.step id s 0 (.api (.run 1)) = some s' :=
   ⟨{ Thr.init 1 with pc := upd (Thr.init 1).pc 0 (.create 1 none) }, _, rfl, rfl⟩
+
+/-- Thread::sleep never returns early: every return of `Thread::sleep(ms)` in any reachable state of the `Sleep` system (any
+    schedule, any number of sleeping threads, ticks of any size) happens at virtual time ≥ call time + ms·10⁶ ns.  Library
+    content: the argument conversion `usleep(milliseconds * 1000)`; ASSUMED: `usleep(µs)` suspends for at least `µs`. -/
+theorem sleep_not_early {now : Nat} {s : Sleep.St} (h : Sleep.Reach now s) (e : Sleep.Ret) (he : e ∈ s.log) :
+    e.t0 + e.ms * 1000000 ≤ e.at_ :=
+  Sleep.good_mem (Sleep.inv_reach h).good e he
+
+example : ∃ s e, Sleep.Reach 7 s ∧ e ∈ s.log ∧ e.t0 = 7 ∧ e.at_ = 12 ∧ s.pc 2 ≠ none :=
+  ⟨_, _, .step (.step (.step (.step (.init) (t := 1) (a := .call 0) rfl) (t := 2) (a := .call 3) rfl) (t := 0) (a := .tick 5) rfl)
+    (t := 1) (a := .run 0) rfl, List.mem_cons_self, rfl, rfl, by decide⟩
 
 /-! ## liveness under fairness (infinite runs, Fair.lean)
 
